@@ -62,6 +62,7 @@ class Ctx:
         self.partial = []
         self.checker_cmds = []
         self.extra = {}
+        self.replay_mode = False
 
     # ---- Coq side ---------------------------------------------------------------------------
     def check_proofs(self, prop_files, timeout=900):
@@ -178,6 +179,8 @@ class Ctx:
             "wall_s": round(time.time() - self.t0, 2),
             "violations": nviol,
         }
+        if self.replay_mode:
+            return 1 if nviol else 0
         os.makedirs(os.path.join(VERIF, "evidence"), exist_ok=True)
         with open(os.path.join(VERIF, "evidence", self.prop + ".json"), "w") as fh:
             json.dump(ev, fh, indent=1, default=str)
@@ -190,6 +193,8 @@ class Ctx:
         return 1 if nviol else 0
 
     def _replay(self, body):
+        if self.replay_mode:
+            return "(replay mode)"
         body = dict(property=self.prop, seed=self.seed, tier=self.tier, **body)
         body["how_to_run"] = "cd /verif && ./check %s --replay <this file>" % self.prop
         s = json.dumps(body, indent=1, default=str, sort_keys=True)
